@@ -73,8 +73,29 @@ var stuckTotal int
 
 var stuckSeen = map[string]int{}
 
+var c13Tier string
+
+// c13Dwell: two repetitions in fifty (quick; ten in a thousand, thorough) stay
+// in the confirmed blocking state for 2.5 s (12 s) before cancel().
+func c13Dwell(i int, out *childOut) {
+	// 25 and 100 are coprime to the number of scenarios: every scenario gets
+	// its share, and the long cases are spread over the child processes
+	if c13Tier == "thorough" {
+		if i%100 == 7 {
+			time.Sleep(12 * time.Second)
+			out.add("cancellations_after_a_long_stay_in_the_state", 1)
+		}
+		return
+	}
+	if i%25 == 7 {
+		time.Sleep(2500 * time.Millisecond)
+		out.add("cancellations_after_a_long_stay_in_the_state", 1)
+	}
+}
+
 func childC13(args []string) {
-	_, seed, from, to, out, _ := childArgs(args)
+	tier, seed, from, to, out, _ := childArgs(args)
+	c13Tier = tier
 	defer out.finish()
 	scs := c13Scenarios()
 	dir, _ := os.MkdirTemp("", "verif-c13-")
@@ -228,6 +249,10 @@ func c13Ingest(seed int64, i int, sc c13Scenario, dir string, out *childOut) {
 	}
 	out.add("states_reached", 1)
 	out.class(fmt.Sprintf("%s|%s|cap=%d", sc.Worker, sc.State, sc.Cap))
+	// Most cancellations come right after the state was reached; some only after
+	// the worker has been blocked in it for a while (workload, not verdict): a
+	// wait that changes its nature after some time must be cancellable too.
+	c13Dwell(i, out)
 	t0 := time.Now()
 	cancel()
 	var err error
@@ -359,6 +384,9 @@ func c13Read(seed int64, i int, sc c13Scenario, out *childOut) {
 	}
 	out.add("states_reached", 1)
 	out.class("read|" + sc.State)
+	if sc.State == "idle" {
+		c13Dwell(i, out)
+	}
 	t0 := time.Now()
 	atomic.StoreInt32(&cancelled, 1)
 	cancel()
@@ -497,6 +525,8 @@ func checkC13(r *vlib.Run) int {
 	r.Set("scenarios", len(c13Scenarios()))
 	r.Set("states_reached", res.stats["states_reached"])
 	r.Set("cancellations_returned", res.stats["cancellations"])
+	r.Set("cancellations_after_a_long_stay_in_the_state", res.stats["cancellations_after_a_long_stay_in_the_state"])
+	r.Require(res.stats["cancellations_after_a_long_stay_in_the_state"] >= 20, "too few cancellations after a long stay in the blocking state")
 	r.Set("max_return_latency_us_informational", res.stats["max:return_latency_us"])
 	r.Set("events_before_return_in_busy_read", res.stats["events_before_return"])
 	r.Set("expired_events_flushed_by_maintenance", res.stats["expired_events_flushed"])
